@@ -4,7 +4,7 @@ import os
 import re
 import vcheck as V
 
-SHAPES = {0: "other", 1: "struct-by-value-in-map", 2: "toplevel-untagged-map", 3: "taggable-map-no-matching-tag", 4: "unexported-field", 5: "field-after-taggable-struct"}
+SHAPES = {0: "other", 1: "struct-by-value-in-map", 2: "toplevel-untagged-map", 3: "taggable-map-no-matching-tag", 4: "unexported-field", 5: "field-after-taggable-struct", 6: "nested-pointer-tag"}
 CLASSES = {0: "other", 1: "ptr-struct", 2: "slice", 3: "string-slice", 4: "ptr-string", 5: "map", 6: "taggable-map", 7: "taggable-struct",
            8: "nil", 9: "rotation", 10: "event-wrapper-info", 11: "string-by-value", 13: "unexported-fields", 14: "struct-by-value"}
 
@@ -56,7 +56,7 @@ ASSUMPTIONS = {
     "C09": ["reflect addressability is one boolean of the model (validated by the correspondence); AEAD / HKDF / HMAC are symbolic (Enc k l, Hmac k l): "
             "'cannot be read without the key' means the output leaf is not Plain",
             "payloads range over the shape grammar G of DESIGN 5.C09 (Encrypt.v type v); IgnoreTypes, structpb.Struct payloads, struct payloads passed by value, "
-            "[]*string, arrays, strings held in interface{} fields / []interface{} elements, Taggable values nested in untagged maps and maps under a \"/k/k2\" pointer that hold non-leaf values are outside G",
+            "struct payloads passed by value are compared with the model (and snapshot-checked for C10) but are outside no_leak (their own strings cannot be set); []*string, arrays, strings held in interface{} fields / []interface{} elements, Taggable values nested in untagged maps and pointer tags deeper than /k/k2 are outside G",
             "with every operation overridden to none Process returns the event untouched before looking at the payload kind, so a rotation payload is then forwarded (C10's clause wins over C09's)"],
     "C10": ["'the original is untouched' is not expressible in the heap-free model: it is tied dynamically (deep snapshot of the input event before / after Process on every case) - partial",
             "copystructure (deep copy that zeroes unexported fields) is modelled by Encrypt.copyz, validated by the correspondence",
@@ -73,11 +73,11 @@ MANIFEST = {
     "C09": {"text": "Tag.v (tag resolution on strings) + Encrypt.v (walker on payload trees with symbolic leaves, one addressability flag, failure = no event); theorems no_leak "
                     "(every exposed leaf of every forwarded payload sits at a position whose own tag resolves to public / no operation, every other position holds exactly what its tag, the defaults and the overrides dictate; all trees of G, all override tables, all wrapper-failure oracles), "
                     "secure_default, fails_closed (any failing AEAD/HMAC call, missing wrapper, malformed pointer, unsettable string payload => error and no event), rotation_payload_consumed; "
-                    "tie: exhaustive tag-spelling x override table, random G-trees depth <= 4 with unique canaries, wrapper ok/absent/failing at the n-th call, output classified by independent decryption / HMAC recomputation, JSON canary search",
+                    "tie: exhaustive tag-spelling x override table, random G-trees depth <= 4 with unique canaries, histories of events on ONE filter with the same payload types recurring under changing override tables and rotated wrappers (each event judged under the table and key in force), wrapper ok/absent/failing at the n-th call, output classified by independent decryption / HMAC recomputation, JSON canary search",
             "design_ref": "5.C09", "note": _NOTE, "technique": _TECH, "engine": "coq-encrypt"},
     "C10": {"category": "proof", "text": "theorems shape_preserved (forwarded payload = input up to leaf contents: constructors, lengths, keys, field names, every non-string value of exported fields), "
                     "public_kept (public / no-operation values unchanged), noop_identity (nil / zero payload, all operations none => the same event), unexported_zeroed_refuted (F10 witness); "
-                    "PARTIAL: 'the original is untouched' is tied dynamically (deep snapshot before/after on every case), not proved; tie: same generator as C09, structural diff output vs input",
+                    "PARTIAL: 'the original is untouched' is tied dynamically (deep snapshot before/after on every case), not proved; tie: same generator as C09 (by-value struct payloads with reference-typed fields included), structural diff output vs input",
             "design_ref": "5.C10", "note": _NOTE, "technique": _TECH, "engine": "coq-encrypt"},
     "C16": {"text": "Crypto.v (key state (wrapper, salt, info), Rotate / rotation payload / event operations, key_in_force with per-event derived wrapper and salt/info precedence, framing over Base64.v); theorems "
                     "b64url_roundtrip, decrypt_roundtrip (all byte strings), hmac_value, hmac_deterministic, rotation_takes_effect (all histories), value_atomic / value_atomic_plain / value_atomic_event (all interleavings of rotations, event starts and per-value steps: every value of every event kind is produced under ONE key generation); "
